@@ -13,7 +13,7 @@ DESCRIPTION = {
              "(b) Hypothesis frame sequences from a grammar (1-5 fragments, control frames inside fragmented messages, multi-byte text straddling fragments, "
              "close frames) with at most one violation from the catalogue - including a generated bad-text family: 18 RFC 3629 malformations (truncated 2/3/4-octet sequences, "
              "lone/bad continuation, overlong, surrogates, >U+10FFFF, F5..FF) after a valid prefix of drawn length, cut into fragments at drawn points, at the bad octet -4..0, with empty "
-             "fragments and an empty final fragment, optionally a ping before the final fragment - followed by more valid frames, each delivered under four read schedules (one read, "
+             "fragments and an empty final fragment, optionally a ping before the final fragment - followed by more valid frames, each delivered under five read schedules (several reads per event-loop turn, one read, "
              "byte-wise, drawn splits, header-boundary splits).  Oracle: an independent receiver model that is given the frame list (not the bytes) yields "
              "the expected events for the well-formed prefix and the verdict; checked: callbacks == events, one pong per ping with equal payload, on violation "
              "exactly one close frame 1002/1007 (failByDrop off) or abort + onClose(False,1006) (on), nothing delivered after the violation, all schedules "
@@ -103,10 +103,11 @@ class Rx:
         self.ep.take()
         self.out = b""
 
-    def feed(self, data):
-        self.ep.feed(data)
-        self.d.settle()
-        self.out += self.ep.take()
+    def feed(self, data, settle=True):
+        self.ep.feed(data, settle)
+        if settle:
+            self.d.settle()
+            self.out += self.ep.take()
 
     def finish(self):
         """deliver our own drop if requested; returns observation dict"""
@@ -483,6 +484,13 @@ def run_stream(c, frames, schedule):
         else:
             for i in range(len(data)):
                 rx.feed(data[i:i + 1])
+    elif schedule == "burst":      # several reads per event-loop turn
+        step = 5 if len(data) < 3000 else 1 + len(data) // 600
+        k = 0
+        for i in range(0, len(data), step):
+            k += 1
+            rx.feed(data[i:i + step], settle=(k % 4 == 0))
+        rx.feed(b"")
     elif schedule == "hdr":
         pos = 0
         cutpoints = set()
@@ -518,7 +526,7 @@ def check_sequence(c):
         if not model.frame(f["fin"], f["rsv"], f["op"], f["masked"], length, f["payload"], form):
             break
     first = None
-    for schedule in ("one", "bytes", "hdr", "drawn"):
+    for schedule in ("one", "bytes", "hdr", "drawn", "burst"):
         case = dict(c, check="seq", schedule=schedule)
         key = "C02|seq"
         try:
